@@ -119,3 +119,30 @@ package kv
 //@ ensures !errIs(err, ErrSequenceDeltaIsZero)
 //@ ensures !errIs(err, ErrMissingSequenceDeltas)
 //@ modifies cells(uint64), cells(int64), cells(int)
+
+// ---------------------------------------------------------------- database handle, as seen by the controllers (C04)
+
+// The term stored in the database, as a ghost value per database object.
+//@ func DB.UpdateTerm(recv, newTerm, options) (err)
+//@ trusted
+//@ modifies ghost(dbTerm, recv)
+//@ ensures err == nil ==> ghost(dbTerm, recv) == newTerm
+//@ ensures err != nil ==> ghost(dbTerm, recv) == old(ghost(dbTerm, recv))
+
+//@ func DB.EnableNotifications
+//@ trusted
+//@ modifies nothing
+
+//@ func NewDB(namespace, shardId, factory, notificationRetentionTime, clock) (db, err)
+//@ trusted
+//@ modifies nothing
+//@ ensures err == nil ==> db != nil
+
+//@ func ToDbOption
+//@ trusted
+//@ pure
+//@ nondet
+
+//@ func SnapshotLoader.AddChunk
+//@ trusted
+//@ modifies nothing
